@@ -75,14 +75,25 @@ def build_set(items):
     """items: list of ('t', text) / ('b',) nodes for the first caption"""
     from pycaption import Caption, CaptionList, CaptionNode, CaptionSet
 
+    from pycaption.geometry import Layout, Point, Size, UnitEnum
+
     nodes = []
+    positioned = any(it[0] == "tl" for it in items)
+    la = Layout(origin=Point(Size(10, UnitEnum.PERCENT), Size(10, UnitEnum.PERCENT))) if positioned else None
+    lb = Layout(origin=Point(Size(20, UnitEnum.PERCENT), Size(70, UnitEnum.PERCENT))) if positioned else None
     for it in items:
         if it[0] == "t":
             nodes.append(CaptionNode.create_text(it[1]))
+        elif it[0] == "tl":
+            # an unstyled line with a layout of its own inside a positioned caption
+            nodes.append(CaptionNode.create_text(it[1], layout_info=lb))
+        elif it[0] == "s":
+            # a style node that no writer can express as an inline tag (class reference only)
+            nodes.append(CaptionNode.create_style(it[1], {"class": "c1"}))
         else:
             nodes.append(CaptionNode.create_break())
     cl = CaptionList()
-    cl.append(Caption(1000000, 2000000, nodes))
+    cl.append(Caption(1000000, 2000000, nodes, layout_info=la))
     cl.append(Caption(5000000, 6000000, [CaptionNode.create_text("Sentinel")]))
     return CaptionSet({"en-US": cl})
 
@@ -91,11 +102,17 @@ def items_from_lines(lines, empties=(), kind="break"):
     """lines: list of str; empties: tuple of len(lines)+1 counts (0..2) of extra empty lines at each position
     (position i = before line i; len(lines) = after the last line)"""
     items = []
+    opened = [0]
 
     def extra(n):
         for _ in range(n):
             if kind == "space-text":
                 items.append(("t", " "))
+            elif kind == "style-pair":
+                items.extend([("s", True), ("s", False)])  # the "empty" line holds an opened and closed class-only span
+            elif kind == "style-open":
+                items.append(("s", True))  # ... or only its opening node (closed at the end of the caption)
+                opened[0] += 1
             items.append(("b",))
 
     for i, ln in enumerate(lines):
@@ -108,15 +125,18 @@ def items_from_lines(lines, empties=(), kind="break"):
         items.append(("b",))
         if kind == "space-text":
             items.append(("t", " "))
+        elif kind == "style-pair":
+            items += [("s", True), ("s", False)]
+    items += [("s", False)] * opened[0]
     return items
 
 
 def expected_lines(items):
     lines, cur = [], []
     for it in items:
-        if it[0] == "t":
+        if it[0] in ("t", "tl"):
             cur.append(it[1])
-        else:
+        elif it[0] == "b":
             lines.append("".join(cur))
             cur = []
     lines.append("".join(cur))
@@ -155,6 +175,11 @@ def features(items):
     f = set()
     prev_break = True
     for it in items:
+        if it[0] == "s":
+            f.add("class-only-style-node")
+            continue
+        if it[0] == "tl":
+            f.add("line-with-its-own-layout")
         if it[0] == "b":
             if prev_break:
                 f.add("empty-line")
@@ -198,8 +223,10 @@ def minimise(wname, items, kind):
         changed = False
         # drop nodes
         for i in range(len(items)):
+            if items[i][0] == "s":
+                continue  # style nodes stay (dropping one of a pair would leave the balanced domain)
             cand = items[:i] + items[i + 1 :]
-            if not any(it[0] == "t" and visible(it[1]) for it in cand):
+            if not any(it[0] in ("t", "tl") and visible(it[1]) for it in cand):
                 continue
             if evaluate_raw(wname, cand)[0] == kind:
                 items = cand
@@ -209,9 +236,9 @@ def minimise(wname, items, kind):
             continue
         # simplify text
         for i, it in enumerate(items):
-            if it[0] == "t" and it[1] not in ("word", " "):
+            if it[0] in ("t", "tl") and it[1] not in ("word", " "):
                 for repl in ["word"] + [t for t, _ in TOKENS if t in it[1] and t != it[1]]:
-                    cand = items[:i] + [("t", repl)] + items[i + 1 :]
+                    cand = items[:i] + [(it[0], repl)] + items[i + 1 :]
                     if evaluate_raw(wname, cand)[0] == kind:
                         items = cand
                         changed = True
@@ -296,13 +323,22 @@ def run_shard(d):
             acc.case((w, ln), visible(ln), (out, expected_lines(items)), {"writer": w, "caption_lines": [ln]})
             for sig, det in v:
                 acc.violation(sig, {"w": w, "items": items}, det)
+            if w in ("DFXPWriter", "SinglePositioningDFXPWriter", "LegacyDFXPWriter", "SAMIWriter") and visible(ln) and ln.count(" ") == 0:
+                # the same text as a line that carries a layout of its own inside a positioned caption
+                items = [("t", "word"), ("b",), ("tl", ln)]
+                v, out = evaluate(w, items)
+                acc.case((w, ln, "tl"), True, (out, expected_lines(items)), {"writer": w, "nodes": items})
+                for sig, det in v:
+                    acc.violation(sig, {"w": w, "items": items}, det)
     else:
         nl = d["nl"]
         n = 0
         for lines in itertools.product(STRUCT, repeat=nl):
             for empties in itertools.product((0, 1, 2), repeat=nl + 1):
-                for kind in ("break", "space-text"):
-                    if not any(empties) and kind == "space-text":
+                for kind in ("break", "space-text", "style-pair", "style-open"):
+                    if not any(empties) and kind != "break":
+                        continue
+                    if kind.startswith("style") and (nl > 2 or sum(empties) > 2):
                         continue
                     n += 1
                     if n % d["nparts"] != d["part"]:
